@@ -10,91 +10,17 @@
 
     Evaluation is kept call-by-value: the primitives that inspect their arguments ([fbinop], [fcall], [store],
     [index_val], [fslice_val], [array_methf]) are never unfolded by [pf_cbn]; an application of one of them to values is
-    switched to a convertible copy ([..._run]) that [pf_cbn] does compute.  (Under a binder the arguments are bound
-    variables, which an Ltac pattern cannot capture, so nothing is unfolded on a value that is not known yet.) *)
+    switched to a convertible copy ([..._run]) that [pf_cbn] does compute ([pf_step]).
+
+    Everything that does not depend on the generated table of process.py -- the sequencing lemmas, the [..._run] copies,
+    [pf_step], [pf_leaf], [first_for] and the facts about indexing, slicing and storing -- is in Proofs/GlueFunLemmas.v,
+    which the proof files about the other sources use without depending on this one. *)
 From Coq Require Import Lia Bool.
 From TW Require Import Model.GlueLeaves Gen.ProcessGlue.
 From TW Require Import Proofs.ListLemmas Proofs.ListLemmas4 Proofs.ListLemmas7 Proofs.ProcessProofs.
+From TW Require Import Proofs.GlueFunLemmas.
 Open Scope Qc_scope.
 Open Scope string_scope.
-
-(** ---------------- sequencing ---------------- *)
-Definition fexec_k (r : fenv * outcome) (k : fenv -> fenv * outcome) : fenv * outcome :=
-  match snd r with ONormal => k (fst r) | _ => r end.
-
-Section Loop.
-Variable cf : string -> list gval -> list (string * gval) -> res gval.
-Variable mf : gval -> string -> list gval -> res gval.
-Variable af : gval -> list gval -> res gval.
-Variable pf : gval -> gval -> res gval.
-Variable vars : list string.
-Variable body : list gstmt.
-Fixpoint floop (items : list gval) (en : fenv) {struct items} : fenv * outcome :=
-  match items with
-  | [] => (en, ONormal)
-  | item :: rest =>
-      let bound := match vars with
-                   | [x] => Some ((x, item) :: en)
-                   | _ => match item with VTup vs => bind_vars vars vs en | _ => None end
-                   end in
-      match bound with
-      | None => (en, ORaise ValueError)
-      | Some en' => let r := fexec cf mf af pf en' body in match snd r with ONormal => floop rest (fst r) | _ => r end
-      end
-  end.
-End Loop.
-
-Lemma fexec_cons : forall cf mf af pf en st l,
-  fexec cf mf af pf en (st :: l) = fexec_k (fexec1 cf mf af pf en st) (fun en' => fexec cf mf af pf en' l).
-Proof. reflexivity. Qed.
-Lemma fexec_nil : forall cf mf af pf en, fexec cf mf af pf en [] = (en, ONormal).
-Proof. reflexivity. Qed.
-Lemma fexec1_if : forall cf mf af pf en c th el,
-  fexec1 cf mf af pf en (SIf c th el) =
-  match feval cf mf af pf en c with
-  | Raise x => (en, ORaise x)
-  | Ok (VBoolV true) => fexec cf mf af pf en th
-  | Ok (VBoolV false) => fexec cf mf af pf en el
-  | Ok _ => (en, ORaise TypeError)
-  end.
-Proof. reflexivity. Qed.
-Lemma fexec1_for : forall cf mf af pf en vars it body,
-  fexec1 cf mf af pf en (SFor vars it body) =
-  match feval cf mf af pf en it with
-  | Raise x => (en, ORaise x)
-  | Ok v => match vals_of v with
-            | None => (en, ORaise TypeError)
-            | Some items => floop cf mf af pf vars body items en
-            end
-  end.
-Proof. reflexivity. Qed.
-Lemma floop_nil : forall cf mf af pf vars body en, floop cf mf af pf vars body [] en = (en, ONormal).
-Proof. reflexivity. Qed.
-Lemma floop_cons1 : forall cf mf af pf x body item rest en,
-  floop cf mf af pf [x] body (item :: rest) en =
-  fexec_k (fexec cf mf af pf ((x, item) :: en) body) (fun en' => floop cf mf af pf [x] body rest en').
-Proof. reflexivity. Qed.
-
-Lemma fexec_k_normal : forall en k, fexec_k (en, ONormal) k = k en.
-Proof. reflexivity. Qed.
-Lemma fexec_k_raise : forall en e k, fexec_k (en, ORaise e) k = (en, ORaise e).
-Proof. reflexivity. Qed.
-Lemma fexec_k_return : forall en v k, fexec_k (en, OReturn v) k = (en, OReturn v).
-Proof. reflexivity. Qed.
-
-(** strict primitives: run only once their arguments are values *)
-Definition fbinop_run := Eval cbv delta [fbinop] in fbinop.
-Definition fcall_run := Eval cbv delta [fcall] in fcall.
-Definition store_run := Eval cbv delta [store] in store.
-Definition index_val_run := Eval cbv delta [index_val] in index_val.
-Definition fslice_val_run := Eval cbv delta [fslice_val] in fslice_val.
-Definition array_methf_run := Eval cbv delta [array_methf] in array_methf.
-Lemma fbinop_run_eq : forall pf op a b, fbinop pf op a b = fbinop_run pf op a b. Proof. reflexivity. Qed.
-Lemma fcall_run_eq : forall cf fn vs ks, fcall cf fn vs ks = fcall_run cf fn vs ks. Proof. reflexivity. Qed.
-Lemma store_run_eq : forall en lc v, store en lc v = store_run en lc v. Proof. reflexivity. Qed.
-Lemma index_val_run_eq : forall a i, index_val a i = index_val_run a i. Proof. reflexivity. Qed.
-Lemma fslice_val_run_eq : forall a lo hi st, fslice_val a lo hi st = fslice_val_run a lo hi st. Proof. reflexivity. Qed.
-Lemma array_methf_run_eq : forall r m vs, array_methf r m vs = array_methf_run r m vs. Proof. reflexivity. Qed.
 
 (** everything that is not interpreter stays folded: numbers, list functions, the model's functions, integer
     arithmetic and comparison, and the strict primitives *)
@@ -107,15 +33,6 @@ Ltac pf_cbn :=
         fexec fexec_k floop process_functions
         fbinop fcall store index_val fslice_val array_methf].
 
-Lemma call_fun_unfold : forall cf mf af pf tbl f actuals formals body,
-  assoc f tbl = Some (formals, body) ->
-  call_fun cf mf af pf tbl f actuals =
-  match fbind_params formals actuals with
-  | Raise e => ORaise e
-  | Ok en => snd (fexec cf mf af pf en body)
-  end.
-Proof. intros. unfold call_fun. rewrite H. reflexivity. Qed.
-
 (** the body of the called function: the table lookup is computed, the body is not unfolded any further *)
 Ltac pf_call :=
   match goal with |- context [call_fun ?cf ?mf ?af ?pf process_functions ?f ?a] =>
@@ -124,77 +41,10 @@ Ltac pf_call :=
       rewrite (call_fun_unfold cf mf af pf process_functions f a fm b) by (vm_compute; reflexivity)
     end
   end.
-
-(** one step: focus on the head statement (the statement being run occurs once in the goal), drop the focus once it
-    has run, use a case already split, run a strict primitive whose arguments are known *)
-Ltac pf_step :=
-  match goal with
-  | |- context [flookup _ _] => unfold flookup
-  | |- context [fexec ?cf ?mf ?af ?pf ?en (SIf ?c ?th ?el :: ?l)] =>
-      rewrite (fexec_cons cf mf af pf en (SIf c th el) l), (fexec1_if cf mf af pf en c th el)
-  | |- context [fexec ?cf ?mf ?af ?pf ?en (SFor ?vs ?it ?b :: ?l)] =>
-      rewrite (fexec_cons cf mf af pf en (SFor vs it b) l), (fexec1_for cf mf af pf en vs it b)
-  | |- context [fexec ?cf ?mf ?af ?pf ?en (?st :: ?l)] => rewrite (fexec_cons cf mf af pf en st l)
-  | |- context [fexec ?cf ?mf ?af ?pf ?en []] => rewrite (fexec_nil cf mf af pf en)
-  | |- context [fexec_k (?en, ONormal) ?k] => rewrite (fexec_k_normal en k)
-  | |- context [fexec_k (?en, ORaise ?e) ?k] => rewrite (fexec_k_raise en e k)
-  | |- context [fexec_k (?en, OReturn ?v) ?k] => rewrite (fexec_k_return en v k)
-  | H : ?e = _ |- context [match ?e with _ => _ end] => rewrite H
-  | |- context [fbinop ?pf ?op ?a ?b] => rewrite (fbinop_run_eq pf op a b)
-  | |- context [fcall ?cf ?fn ?vs ?ks] => rewrite (fcall_run_eq cf fn vs ks)
-  | |- context [store ?en ?lc ?v] => rewrite (store_run_eq en lc v)
-  | |- context [index_val ?a ?i] => rewrite (index_val_run_eq a i)
-  | |- context [fslice_val ?a ?lo ?hi ?st] => rewrite (fslice_val_run_eq a lo hi st)
-  | |- context [array_methf ?r ?m ?vs] => rewrite (array_methf_run_eq r m vs)
-  end.
 Ltac pf_run := repeat (pf_cbn; pf_step); pf_cbn.
 
 
-(** ---------------- facts about the leaves ---------------- *)
-Lemma py_index_nil : forall {A} i, @py_index A [] i = None.
-Proof.
-  intros A i. unfold py_index. cbn [length Z.of_nat].
-  destruct (i <? 0)%Z; destruct (Z.ltb_spec (0 + i) 0); destruct (Z.ltb_spec i 0); destruct (Z.leb_spec 0 (0 + i)); destruct (Z.leb_spec 0 i); try reflexivity; lia.
-Qed.
-Lemma py_index_cons0 : forall {A} (a : A) l, py_index (a :: l) 0 = Some a.
-Proof.
-  intros A a l. unfold py_index. cbn [length Z.ltb Z.compare].
-  replace (Z.of_nat (S (length l)) <=? 0)%Z with false by (symmetry; apply Z.leb_gt; lia). reflexivity.
-Qed.
-Lemma py_index_head : forall l : list Qc, l <> [] -> py_index l 0 = Some (headq l).
-Proof. intros [|a l] H; [congruence|]. apply py_index_cons0. Qed.
-Lemma py_index_last : forall l : list Qc, l <> [] -> py_index l (-1) = Some (lastq l).
-Proof.
-  intros l H. unfold py_index. cbn [Z.ltb Z.compare].
-  destruct (exists_last H) as [l' [a ->]]. unfold lastq. rewrite last_last.
-  rewrite app_length. cbn [length].
-  replace (Z.of_nat (length l' + 1) + -1)%Z with (Z.of_nat (length l')) by lia.
-  replace (Z.of_nat (length l') <? 0)%Z with false by (symmetry; apply Z.ltb_ge; lia).
-  replace (Z.of_nat (length l' + 1) <=? Z.of_nat (length l'))%Z with false by (symmetry; apply Z.leb_gt; lia).
-  cbn [orb]. rewrite Nat2Z.id. rewrite nth_error_app2 by lia. rewrite Nat.sub_diag. reflexivity.
-Qed.
-
-(** slices *)
-Lemma slice_clamp : forall (l : list Qc) a b,
-  slice l (Nat.min a (length l)) (Nat.min b (length l)) = slice l a b.
-Proof.
-  intros l a b. unfold slice.
-  destruct (Nat.le_gt_cases (length l) a) as [Ha|Ha].
-  - rewrite (Nat.min_r a) by lia. rewrite !skipn_all2 by lia. now rewrite !firstn_nil.
-  - rewrite (Nat.min_l a) by lia.
-    destruct (Nat.le_gt_cases (length l) b) as [Hb|Hb].
-    + rewrite (Nat.min_r b) by lia. rewrite !firstn_all2; [reflexivity| |]; rewrite skipn_length; lia.
-    + rewrite (Nat.min_l b) by lia. reflexivity.
-Qed.
-Lemma py_slice_nonneg : forall l a b, (0 <= a)%Z -> (0 <= b)%Z ->
-  py_slice l a b 1 = Ok (slice l (Z.to_nat a) (Z.to_nat b)).
-Proof.
-  intros l a b Ha Hb. rewrite ListLemmas7.py_slice_step1. rewrite <- (slice_clamp l (Z.to_nat a) (Z.to_nat b)).
-  unfold sl_pos, clampZ.
-  destruct (Z.ltb_spec a 0) as [H|_]; [lia|]. destruct (Z.ltb_spec b 0) as [H|_]; [lia|].
-  do 2 f_equal; lia.
-Qed.
-
+(** ---------------- facts about the model's scans ---------------- *)
 (** the scans with fill_not_valid=True answer non-negative positions *)
 Lemma adv_le_ge : forall xs idx q, (idx <= snd (adv_le xs idx q))%Z.
 Proof.
@@ -243,17 +93,6 @@ Proof.
   injection H as <-. apply Forall_app. split; [exact Hp|apply higher_main_ge].
 Qed.
 
-
-Lemma Z_1_le_0 : (1 <=? 0)%Z = false. Proof. reflexivity. Qed.
-(** a[0], a[-1] on a non-empty array (the hypothesis is looked up in the context) *)
-Ltac pf_leaf :=
-  match goal with
-  | |- context [@py_index ?A [] ?i] => rewrite (@py_index_nil A i)
-  | |- context [py_index (?a :: ?l) 0%Z] => rewrite (py_index_cons0 a l)
-  | |- context [py_index ?l 0%Z] => rewrite (py_index_head l) by assumption
-  | |- context [py_index ?l (-1)%Z] => rewrite (py_index_last l) by assumption
-  | |- context [(1 <=? 0)%Z] => rewrite Z_1_le_0
-  end.
 (** truncate: the guard and the two scans are split on the interpreter side and on the model side at once; a scan
     with fill_not_valid=True answers positions >= 0, so that the Python slice does not wrap where the model's
     Z.to_nat truncates *)
@@ -319,35 +158,8 @@ Qed.
 (** the body of the (first) for loop of a function, from the generated table *)
 Definition body_of (f : string) : list gstmt :=
   match assoc f process_functions with Some (_, b) => b | None => [] end.
-Fixpoint first_for (l : list gstmt) : list gstmt :=
-  match l with
-  | SFor _ _ b :: _ => b
-  | _ :: l' => first_for l'
-  | [] => []
-  end.
 Definition trend_loop_body : list gstmt := Eval vm_compute in first_for (body_of "trend").
 
-Lemma py_index_nat : forall (l : list Qc) k, (k < length l)%nat -> py_index l (Z.of_nat k) = Some (nthq k l).
-Proof.
-  intros l k H. unfold py_index. cbv zeta.
-  assert (E : (Z.of_nat k <? 0)%Z = false) by (apply Z.ltb_ge; lia). rewrite E. cbv iota. rewrite E.
-  replace (Z.of_nat (length l) <=? Z.of_nat k)%Z with false by (symmetry; apply Z.leb_gt; lia).
-  cbn [orb]. rewrite Nat2Z.id. unfold nthq. apply nth_error_nth'. exact H.
-Qed.
-Lemma store_idx_nat : forall en x l k q, assoc x en = Some (VArr l) -> (k < length l)%nat ->
-  store en (LocIdx x (Z.of_nat k)) (VNum q) = Ok ((x, VArr (set_nth l k q)) :: en).
-Proof.
-  intros en x l k q Hx Hk. unfold store, flookup. rewrite Hx. cbn [bind as_num].
-  cbv zeta.
-  assert (E : (Z.of_nat k <? 0)%Z = false) by (apply Z.ltb_ge; lia). rewrite E. cbv iota. rewrite E.
-  replace (Z.of_nat (length l) <=? Z.of_nat k)%Z with false by (symmetry; apply Z.leb_gt; lia).
-  cbn [orb]. rewrite Nat2Z.id. reflexivity.
-Qed.
-Lemma set_nth_len : forall l k v, length (set_nth l k v) = length l.
-Proof.
-  induction l as [|a l IH]; intros k v; [reflexivity|].
-  destruct k as [|k]; cbn [set_nth length]; [reflexivity|]. now rewrite IH.
-Qed.
 
 (** one iteration: y[k] += fun(x[k] / range_x) resp. fun(x[k]) *)
 Definition trend_step (f : Qc -> Qc) (nrm : bool) (rx : Qc) (x yc : list Qc) (k : nat) : list Qc :=
@@ -403,10 +215,6 @@ Proof.
 Qed.
 
 Open Scope string_scope.
-Lemma range_items : forall n, map VInt (range_list 0 (Z.of_nat n)) = map (fun k => VInt (Z.of_nat k)) (seq 0 n).
-Proof.
-  intros n. unfold range_list. rewrite map_map, Z.sub_0_r, Nat2Z.id. reflexivity.
-Qed.
 
 Lemma glue_trend : forall f x y nrm, x <> [] -> length x = length y ->
   outcome_arr_pair (call_fun (process_callf f) array_methf no_apply no_pow process_functions "trend"
@@ -429,32 +237,7 @@ Qed.
 (** ---------------- C12: repeat ---------------- *)
 Definition repeat_loop_body : list gstmt := Eval vm_compute in first_for (body_of "repeat").
 
-Lemma Zof_mul : forall a b, (Z.of_nat a * Z.of_nat b)%Z = Z.of_nat (a * b). Proof. intros; lia. Qed.
-Lemma Zof_add1 : forall a, (Z.of_nat a + 1)%Z = Z.of_nat (a + 1). Proof. intros; lia. Qed.
-Lemma Zof_sub1 : forall a, (1 <= a)%nat -> (Z.of_nat a - 1)%Z = Z.of_nat (a - 1). Proof. intros; lia. Qed.
-Lemma Zof_sub2 : forall a, (2 <= a)%nat -> (Z.of_nat a - 2)%Z = Z.of_nat (a - 2). Proof. intros; lia. Qed.
-
-Lemma headq_nthq0 : forall l, headq l = nthq 0 l.
-Proof. intros [|a l]; reflexivity. Qed.
-
-Lemma py_slice_nat : forall l a b, py_slice l (Z.of_nat a) (Z.of_nat b) 1 = Ok (slice l a b).
-Proof. intros l a b. rewrite py_slice_nonneg by lia. now rewrite !Nat2Z.id. Qed.
-
 Close Scope string_scope.
-Lemma store_slice_nat : forall en x l a b w, assoc x en = Some (VArr l) ->
-  (a <= b)%nat -> (b <= length l)%nat -> length w = (b - a)%nat ->
-  store en (LocSlice x (Z.of_nat a) (Z.of_nat b)) (VArr w) = Ok ((x, VArr (firstn a l ++ w ++ skipn b l)) :: en).
-Proof.
-  intros en x l a b w Hx Hab Hb Hw. unfold store, flookup. rewrite Hx. cbn [bind]. cbv zeta.
-  assert (Na : norm_bound (Z.of_nat (length l)) (Z.of_nat a) = Z.of_nat a).
-  { unfold norm_bound, clampZ. destruct (Z.ltb_spec (Z.of_nat a) 0); lia. }
-  assert (Nb : norm_bound (Z.of_nat (length l)) (Z.of_nat b) = Z.of_nat b).
-  { unfold norm_bound, clampZ. destruct (Z.ltb_spec (Z.of_nat b) 0); lia. }
-  rewrite Na, Nb.
-  replace (Z.of_nat (length w) =? Z.max 0 (Z.of_nat b - Z.of_nat a))%Z with true by (symmetry; apply Z.eqb_eq; lia).
-  replace (Z.max (Z.of_nat a) (Z.of_nat b)) with (Z.of_nat b) by lia. rewrite !Nat2Z.id. reflexivity.
-Qed.
-
 Lemma repeat_step_length : forall n x i, (n * (i + 1) <= length x)%nat -> length (repeat_step n x i) = length x.
 Proof.
   intros n x i H. unfold repeat_step. rewrite !app_length, map_length, firstn_length, skipn_length, slice_len. nia.
@@ -508,11 +291,6 @@ Proof.
       rewrite Hy'. reflexivity.
 Qed.
 
-Lemma range1_items : forall r, map VInt (range_list 1 r) = map (fun i => VInt (Z.of_nat i)) (seq 1 (Z.to_nat r - 1)).
-Proof.
-  intros r. unfold range_list. replace (Z.to_nat (r - 1)) with (Z.to_nat r - 1)%nat by lia.
-  rewrite <- seq_shift, !map_map. apply map_ext. intros k. f_equal. lia.
-Qed.
 
 Lemma glue_repeat : forall x y r, repeat_defined x = true -> (0 <= r)%Z ->
   outcome_arr_pair (call_fun (process_callf (fun v => v)) array_methf no_apply no_pow process_functions "repeat"
